@@ -279,54 +279,107 @@ def scoped_listing(rnd, validate=None):
     original = [bytes(b.contents) for b in blocks]
     # only alignment requirements that hold in the input make sense: pad the input?  No: an entry that does not hold yet is a
     # requirement all the same -- the rewrite has to establish it.
-    ctx = gtirb_rewriting.RewritingContext(m, [])
-    plan = {k: [] for k in range(nb)}          # block -> [(offset, registration number, bytes)]
-    desc = []
-    for reg in range(rnd.randint(1, 4)):
-        text, code = rnd.choice(T["marks"])
-        how = rnd.choice(["at", "single", "all"])
-        term = lambda k: kinds[k] in ("call", "jmp", "jcc", "ret")     # noqa
-        exit_off = lambda k: sum(insns[k][:-1]) if term(k) else sum(insns[k])   # noqa
-        if how == "at":
-            k = rnd.randrange(nb)
-            off = sum(insns[k][:rnd.randint(0, len(insns[k]))])
-            ctx.insert_at(blocks[k], off, literal_patch(text))
-            plan[k].append((off, reg, code))
-            desc.append(f"insert_at(b{k}, {off})")
-        else:
-            pos = rnd.choice(["ENTRY", "EXIT"])
-            ks = [rnd.randrange(nb)] if how == "single" else list(range(nb))
-            scope = SingleBlockScope(blocks[ks[0]], getattr(BlockPosition, pos)) if how == "single" else AllBlocksScope(getattr(BlockPosition, pos))
-            ctx.register_insert(scope, literal_patch(text))
-            for k in ks:
-                plan[k].append((0 if pos == "ENTRY" else exit_off(k), reg, code))
-            desc.append(f"register_insert({'SingleBlockScope(b%d' % ks[0] if how == 'single' else 'AllBlocksScope('}{', ' if how == 'single' else ''}{pos}))")
-    try:
-        ctx.apply()
-    except Exception as e:    # noqa
-        return f"{isa}: blocks {kinds}, {desc}: apply raises {type(e).__name__}: {str(e)[:100]}"
-    if validate is not None:
-        w = validate(ir, m)
-        if w:
-            return f"{isa}: blocks {kinds}, alignment {align}, registrations {desc}: {w}"
-        return None
-    want = b""
-    for k in range(nb):
-        edited, cur = b"", 0
-        for off, _, code in sorted(plan[k]):
-            edited += original[k][cur:off] + code
-            cur = off
-        edited += original[k][cur:]
-        if k in align:
-            pad = (-(0x1000 + len(want))) % align[k]
-            if pad % len(T["nop"]):
-                return None          # (cannot happen with these sizes on the fixed-width ISAs)
-            want += T["nop"] * (pad // len(T["nop"]))
-        want += edited
-    got = b"".join(bytes(x.contents) for x in sorted(m.byte_intervals, key=lambda x: x.address or 0) if x.section.name == ".text")
-    if got != want:
-        return (f"{isa}: blocks {[(kd, len(o)) for kd, o in zip(kinds, original)]}, alignment {align}, registrations {desc}: the text section is "
-                f"{got.hex()}, the listing edit with nop padding is {want.hex()}")
+    isz = 1 if isa == "X64" else 4                      # every marker instruction has this size
+    # a second RewritingContext over the rewritten module (only without alignment entries: padding would change what a block holds)
+    rounds = 2 if not align and validate is None and rnd.random() < 0.35 else 1
+    history = []
+    for round_no in range(rounds):
+        ctx = gtirb_rewriting.RewritingContext(m, [])
+        plan = {k: [] for k in range(nb)}          # block -> [(offset, registration number, bytes)]
+        desc = []
+        for reg in range(rnd.randint(1, 4)):
+            text, code = rnd.choice(T["marks"])
+            how = rnd.choice(["at", "single", "all"])
+            term = lambda k: kinds[k] in ("call", "jmp", "jcc", "ret")     # noqa
+            exit_off = lambda k: sum(insns[k][:-1]) if term(k) else sum(insns[k])   # noqa
+            if how == "at":
+                k = rnd.randrange(nb)
+                off = sum(insns[k][:rnd.randint(0, len(insns[k]))])
+                ctx.insert_at(blocks[k], off, literal_patch(text))
+                plan[k].append((off, reg, code))
+                desc.append(f"insert_at(b{k}, {off})")
+            else:
+                pos = rnd.choice(["ENTRY", "EXIT"])
+                ks = [rnd.randrange(nb)] if how == "single" else list(range(nb))
+                scope = SingleBlockScope(blocks[ks[0]], getattr(BlockPosition, pos)) if how == "single" else AllBlocksScope(getattr(BlockPosition, pos))
+                if how == "all" and rnd.random() < 0.4:
+                    # ONE patch object whose text depends on the place it is asked for: block k gets marker (k + shift) mod n
+                    shift = rnd.randrange(len(T["marks"]))
+
+                    @gtirb_rewriting.patch_constraints()
+                    def by_place(c, _shift=shift):
+                        k = next(j for j, x in enumerate(blocks) if x is c.block)
+                        return T["marks"][(k + _shift) % len(T["marks"])][0]
+                    ctx.register_insert(scope, gtirb_rewriting.Patch.from_function(by_place))
+                    for k in ks:
+                        plan[k].append((0 if pos == "ENTRY" else exit_off(k), reg, T["marks"][(k + shift) % len(T["marks"])][1]))
+                    desc.append(f"register_insert(AllBlocksScope({pos}), one patch whose text depends on the block)")
+                    continue
+                ctx.register_insert(scope, literal_patch(text))
+                for k in ks:
+                    plan[k].append((0 if pos == "ENTRY" else exit_off(k), reg, code))
+                desc.append(f"register_insert({'SingleBlockScope(b%d' % ks[0] if how == 'single' else 'AllBlocksScope('}{', ' if how == 'single' else ''}{pos}))")
+        history.append(desc)
+        try:
+            ctx.apply()
+        except Exception as e:    # noqa
+            return f"{isa}: blocks {kinds}, contexts {history}: apply raises {type(e).__name__}: {str(e)[:100]}"
+        if validate is not None:
+            w = validate(ir, m)
+            if w:
+                return f"{isa}: blocks {kinds}, alignment {align}, registrations {desc}: {w}"
+            return None
+        want, stream = b"", []                    # stream: (size, is the instruction that ends an input block with a control transfer)
+        for k in range(nb):
+            edited, cur = b"", 0
+            bounds = [0]
+            for z in insns[k]:
+                bounds.append(bounds[-1] + z)
+            ordered = sorted(plan[k])
+            for bi_, bnd in enumerate(bounds):
+                for off, _, code in ordered:
+                    if off == bnd:
+                        stream += [(isz, False)] * (len(code) // isz)
+                if bi_ < len(insns[k]):
+                    stream.append((insns[k][bi_], term(k) and bi_ == len(insns[k]) - 1))
+            for off, _, code in ordered:
+                edited += original[k][cur:off] + code
+                cur = off
+            edited += original[k][cur:]
+            if k in align:
+                pad = (-(0x1000 + len(want))) % align[k]
+                if pad % len(T["nop"]):
+                    return None          # (cannot happen with these sizes on the fixed-width ISAs)
+                want += T["nop"] * (pad // len(T["nop"]))
+            want += edited
+        got = b"".join(bytes(x.contents) for x in sorted(m.byte_intervals, key=lambda x: x.address or 0) if x.section.name == ".text")
+        if got != want:
+            return (f"{isa}: blocks {[(kd, len(o)) for kd, o in zip(kinds, original)]}, alignment {align}, contexts {history}: the text section is "
+                    f"{got.hex()}, the listing edit with nop padding is {want.hex()}")
+        # the next context edits what this one left: the code blocks the module has now, each a run of whole instructions of the stream
+        if round_no + 1 < rounds:
+            pieces = sorted(m.code_blocks, key=lambda x: x.address)
+            if any(x.size == 0 for x in pieces) or sum(x.size for x in pieces) != len(want):
+                return None
+            blocks, original, insns, kinds, pos_ = [], [], [], [], 0
+            it = iter(stream)
+            for x in pieces:
+                if x.address != 0x1000 + pos_:
+                    return None
+                sizes, flags, have = [], [], 0
+                while have < x.size:
+                    z, f = next(it)
+                    sizes.append(z)
+                    flags.append(f)
+                    have += z
+                if have != x.size:
+                    return None          # a block boundary inside an instruction: not a case for this oracle
+                blocks.append(x)
+                original.append(bytes(x.contents))
+                insns.append(sizes)
+                kinds.append("jmp" if flags[-1] else "fall")
+                pos_ += x.size
+            nb = len(blocks)
     return None
 
 
@@ -344,10 +397,14 @@ def patch_expressions(rnd):
     pie = rnd.random() < 0.5
     m, msyms = asmmt.make_module(target, pie)
     refs = [v for v in asmmt.VOCAB[target] if v["kind"] == "ref" and "{t}" in v["line"]]
+    if tg["x86"]:
+        # direct transfers as well: on a position-independent ELF module a call or jump to a symbol of a proxy is given the PLT attribute,
+        # a plain reference to the same symbol in the same patch is not
+        refs = refs + [v for v in asmmt.VOCAB[target] if v["kind"] in ("call", "jmp", "jcc") and "{t}" in v["line"]]
     items = []
     for _ in range(rnd.randint(1, 3)):
         v = dict(rnd.choice(refs))
-        v["sym"] = rnd.choice(["ext", "extp", "dat"])
+        v["sym"] = rnd.choice(["ext", "extp", "dat"] if v["kind"] == "ref" else ["ext", "extp"])      # a transfer to data is refused
         v["line"] = v["line"].replace("{t}", v["sym"])
         items.append(v)
     text = "\n".join(v["line"] for v in items)
@@ -383,8 +440,11 @@ def patch_expressions(rnd):
             return f"{target}: `{v['line']}`: the expression at {a:#x} does not name the module's symbol {v['sym']}"
         if e.offset != v["addend"]:
             return f"{target}: `{v['line']}`: addend {e.offset}, expected {v['addend']}"
-        if {x.name for x in e.attributes} != set(v["attrs"]):
-            return f"{target}: `{v['line']}`: attributes {sorted(x.name for x in e.attributes)}, expected {sorted(v['attrs'])}"
+        want_attrs = set(v["attrs"])
+        if tg["x86"] and tg["fmt"] == "ELF" and pie and v["kind"] in ("call", "jmp", "jcc") and isinstance(msyms[v["sym"]].referent, gtirb.ProxyBlock):
+            want_attrs = want_attrs | {"PLT"}
+        if {x.name for x in e.attributes} != want_attrs:
+            return f"{target}: `{v['line']}` (in the patch `{text}`): attributes {sorted(x.name for x in e.attributes)}, expected {sorted(want_attrs)}"
         if v.get("opsize") is not None and sizes.get(a) != v["opsize"]:
             return f"{target}: `{v['line']}`: symbolicExpressionSizes has {sizes.get(a)} at {a:#x}, expected {v['opsize']}"
         pos += v["size"]
@@ -394,6 +454,67 @@ def patch_expressions(rnd):
     stray = [a for a in sizes if a not in exprs]
     if stray:
         return f"{target}: patch `{text}`: symbolicExpressionSizes entries at {[hex(a) for a in stray]} where no expression is"
+    return None
+
+
+# ------------------------------------------------------------------------------------ extern symbols: one symbol per name
+def extern_symbols(rnd):
+    """get_or_insert_extern_symbol binds a name to the module's symbol of that name -- also to one that came into the module after an
+    earlier request, by another route (added to the module directly, or the name of a function registered with
+    register_insert_function) -- and otherwise creates exactly one proxy-backed symbol; a patch that calls the name afterwards names that
+    symbol.  Returns a violation text or None."""
+    import gtirb_rewriting
+    from gtirb_test_helpers import add_code_block, add_proxy_block, add_symbol, add_text_section, create_test_module
+    from helpers import literal_patch
+    ff = rnd.choice([gtirb.Module.FileFormat.ELF, gtirb.Module.FileFormat.PE])
+    ir, m = create_test_module(ff, gtirb.Module.ISA.X64)
+    _, bi = add_text_section(m, address=0x1000)
+    b = add_code_block(bi, b"\x90\x90\xc3")
+    add_symbol(m, "start", b)
+    ctx = gtirb_rewriting.RewritingContext(m, [])
+    names = ["puts", "hook", "helper"]
+    got, ops = {}, []
+    for _ in range(rnd.randint(3, 7)):
+        n = rnd.choice(names)
+        k = rnd.random()
+        if k < 0.6:
+            try:
+                s = ctx.get_or_insert_extern_symbol(n, "libx.so")
+            except Exception as e:    # noqa
+                return f"{ff.name}: {ops} then get_or_insert_extern_symbol({n}) raises {type(e).__name__}"
+            ops.append(f"get({n})")
+            named = [x for x in m.symbols if x.name == n]
+            if len(named) != 1:
+                return f"{ff.name}: after {ops} the module has {len(named)} symbols named {n}"
+            if named[0] is not s:
+                return f"{ff.name}: after {ops} get_or_insert_extern_symbol({n}) returned a symbol that is not the module's symbol of that name"
+            if n in got and got[n] is not s:
+                return f"{ff.name}: after {ops} a repeated request for {n} returned another symbol"
+            got[n] = s
+        elif k < 0.85:
+            if not any(x.name == n for x in m.symbols):
+                got[n] = add_symbol(m, n, add_proxy_block(m))
+                ops.append(f"add_symbol({n})")
+        else:
+            if not any(x.name == n for x in m.symbols) and n not in [o[9:-1] for o in ops if o.startswith("function(")]:
+                ctx.register_insert_function(n, literal_patch("ret"))
+                ops.append(f"function({n})")
+    target = rnd.choice(names)
+    if not any(x.name == target for x in m.symbols) and f"function({target})" not in ops:
+        return None
+    ctx.insert_at(b, 0, literal_patch(f"call {target}"))
+    try:
+        ctx.apply()
+    except Exception as e:    # noqa
+        return f"{ff.name}: {ops} then a patch `call {target}`: apply raises {type(e).__name__}: {str(e)[:80]}"
+    named = [x for x in m.symbols if x.name == target]
+    if len(named) != 1:
+        return f"{ff.name}: after {ops} and a rewrite the module has {len(named)} symbols named {target}"
+    for iv in m.byte_intervals:
+        for off, e in iv.symbolic_expressions.items():
+            for sy in e.symbols:
+                if sy.name == target and sy is not named[0]:
+                    return f"{ff.name}: after {ops} the patch `call {target}` names a symbol that is not the module's symbol {target}"
     return None
 
 
